@@ -342,8 +342,11 @@ func gexpr(e parser.Expr) string {
 		return "(EVS " + gvs(n) + ")"
 	case *parser.MatrixSelector:
 		vs, ok := n.VectorSelector.(*parser.VectorSelector)
-		if !ok || n.RangeExpr != nil {
-			fail("matrix")
+		if !ok {
+			fail("matrix-without-vector-selector")
+		}
+		if n.RangeExpr != nil {
+			fail("duration-expr")
 		}
 		return fmt.Sprintf("(EMat %s %s)", gvs(vs), gdur(int64(n.Range)))
 	case *parser.SubqueryExpr:
